@@ -31,12 +31,14 @@ func mutexLock(fr *frame, m Struct) {
 	p.preemptPoint(fr.th)
 	p.block(fr.th, func() bool { return isZeroTerm(m[0]) })
 	m[0] = BVI(32, 1)
+	p.raceAcquire(fr.th, &m[0])
 }
 
 func mutexUnlock(fr *frame, m Struct) {
 	if isZeroTerm(m[0]) {
 		panic(&goPanic{kind: "fatal", msg: "sync: unlock of unlocked mutex"})
 	}
+	fr.p.raceRelease(fr.th, &m[0])
 	m[0] = BVI(32, 0)
 	fr.p.preemptPoint(fr.th)
 }
@@ -47,6 +49,13 @@ func scalarCell(v Value, what string) *Value {
 		panic(&goPanic{kind: "nil-deref", msg: "nil address in " + what})
 	}
 	return p
+}
+
+// atomicSync: an atomic operation both publishes and observes (sequentially
+// consistent atomics), for the race detector.
+func atomicSync(fr *frame, c *Value) {
+	fr.p.raceAcquire(fr.th, c)
+	fr.p.raceRelease(fr.th, c)
 }
 
 func init() {
@@ -63,6 +72,7 @@ func init() {
 		fr.p.preemptPoint(fr.th)
 		if isZeroTerm(m[0]) {
 			m[0] = BVI(32, 1)
+			fr.p.raceAcquire(fr.th, &m[0])
 			return TTrue
 		}
 		return TFalse
@@ -74,6 +84,7 @@ func init() {
 		fr.p.preemptPoint(fr.th)
 		fr.p.block(fr.th, func() bool { return isZeroTerm(m[1]) && isZeroTerm(m[2]) })
 		m[1] = BVU(32, 1)
+		fr.p.raceAcquire(fr.th, &m[0])
 		return nil
 	})
 	reg("(*sync.RWMutex).Unlock", func(fr *frame, fn *ssa.Function, a []Value) Value {
@@ -81,6 +92,7 @@ func init() {
 		if isZeroTerm(m[1]) {
 			panic(&goPanic{kind: "fatal", msg: "sync: Unlock of unlocked RWMutex"})
 		}
+		fr.p.raceRelease(fr.th, &m[0])
 		m[1] = BVU(32, 0)
 		fr.p.preemptPoint(fr.th)
 		return nil
@@ -90,6 +102,7 @@ func init() {
 		fr.p.preemptPoint(fr.th)
 		fr.p.block(fr.th, func() bool { return isZeroTerm(m[1]) })
 		m[2] = BVAdd(m[2].(*Term), BVU(32, 1))
+		fr.p.raceAcquire(fr.th, &m[0])
 		return nil
 	})
 	reg("(*sync.RWMutex).RUnlock", func(fr *frame, fn *ssa.Function, a []Value) Value {
@@ -97,6 +110,7 @@ func init() {
 		if isZeroTerm(m[2]) {
 			panic(&goPanic{kind: "fatal", msg: "sync: RUnlock of unlocked RWMutex"})
 		}
+		fr.p.raceRelease(fr.th, &m[0])
 		m[2] = BVSub(m[2].(*Term), BVU(32, 1))
 		fr.p.preemptPoint(fr.th)
 		return nil
@@ -115,6 +129,7 @@ func init() {
 	})
 	reg("(*sync.WaitGroup).Done", func(fr *frame, fn *ssa.Function, a []Value) Value {
 		w := structCell(a[0], "WaitGroup.Done")
+		fr.p.raceRelease(fr.th, &w[2])
 		fr.p.preemptPoint(fr.th)
 		n := BVSub(w[2].(*Term), BVU(32, 1))
 		if n.IsConst() && n.Int64() < 0 {
@@ -127,6 +142,7 @@ func init() {
 		w := structCell(a[0], "WaitGroup.Wait")
 		fr.p.preemptPoint(fr.th)
 		fr.p.block(fr.th, func() bool { return isZeroTerm(w[2]) })
+		fr.p.raceAcquire(fr.th, &w[2])
 		return nil
 	})
 	// Once{done atomic.Uint32; m Mutex}: model flag in m.state: 0 fresh, 2 running, 1 done
@@ -137,13 +153,15 @@ func init() {
 		st := m[0].(*Term)
 		switch st.Int64() {
 		case 1:
+			fr.p.raceAcquire(fr.th, &m[0])
 			return nil
 		case 2:
 			fr.p.block(fr.th, func() bool { return m[0].(*Term).Int64() == 1 })
+			fr.p.raceAcquire(fr.th, &m[0])
 			return nil
 		}
 		m[0] = BVI(32, 2)
-		defer func() { m[0] = BVI(32, 1) }()
+		defer func() { fr.p.raceRelease(fr.th, &m[0]); m[0] = BVI(32, 1) }()
 		fr.p.call(fr, a[1], nil)
 		return nil
 	})
@@ -162,17 +180,20 @@ func init() {
 		ty := ty
 		reg("sync/atomic.Load"+ty, func(fr *frame, fn *ssa.Function, a []Value) Value {
 			c := scalarCell(a[0], "atomic.Load")
+			atomicSync(fr, c)
 			fr.p.preemptPoint(fr.th)
 			return *c
 		})
 		reg("sync/atomic.Store"+ty, func(fr *frame, fn *ssa.Function, a []Value) Value {
 			c := scalarCell(a[0], "atomic.Store")
+			atomicSync(fr, c)
 			fr.p.preemptPoint(fr.th)
 			*c = a[1]
 			return nil
 		})
 		reg("sync/atomic.Add"+ty, func(fr *frame, fn *ssa.Function, a []Value) Value {
 			c := scalarCell(a[0], "atomic.Add")
+			atomicSync(fr, c)
 			fr.p.preemptPoint(fr.th)
 			n := BVAdd((*c).(*Term), termOf(a[1]))
 			*c = n
@@ -180,6 +201,7 @@ func init() {
 		})
 		reg("sync/atomic.Swap"+ty, func(fr *frame, fn *ssa.Function, a []Value) Value {
 			c := scalarCell(a[0], "atomic.Swap")
+			atomicSync(fr, c)
 			fr.p.preemptPoint(fr.th)
 			old := *c
 			*c = a[1]
@@ -187,6 +209,7 @@ func init() {
 		})
 		reg("sync/atomic.CompareAndSwap"+ty, func(fr *frame, fn *ssa.Function, a []Value) Value {
 			c := scalarCell(a[0], "atomic.CAS")
+			atomicSync(fr, c)
 			fr.p.preemptPoint(fr.th)
 			if fr.p.branch(Eq((*c).(*Term), termOf(a[1]))) {
 				*c = a[2]
@@ -197,17 +220,20 @@ func init() {
 	}
 	reg("sync/atomic.LoadPointer", func(fr *frame, fn *ssa.Function, a []Value) Value {
 		c := scalarCell(a[0], "atomic.LoadPointer")
+			atomicSync(fr, c)
 		fr.p.preemptPoint(fr.th)
 		return *c
 	})
 	reg("sync/atomic.StorePointer", func(fr *frame, fn *ssa.Function, a []Value) Value {
 		c := scalarCell(a[0], "atomic.StorePointer")
+			atomicSync(fr, c)
 		fr.p.preemptPoint(fr.th)
 		*c = a[1]
 		return nil
 	})
 	reg("sync/atomic.SwapPointer", func(fr *frame, fn *ssa.Function, a []Value) Value {
 		c := scalarCell(a[0], "atomic.SwapPointer")
+			atomicSync(fr, c)
 		fr.p.preemptPoint(fr.th)
 		old := *c
 		*c = a[1]
@@ -215,6 +241,7 @@ func init() {
 	})
 	reg("sync/atomic.CompareAndSwapPointer", func(fr *frame, fn *ssa.Function, a []Value) Value {
 		c := scalarCell(a[0], "atomic.CASPointer")
+			atomicSync(fr, c)
 		fr.p.preemptPoint(fr.th)
 		if equals(*c, a[1]).IsTrue() {
 			*c = a[2]
@@ -225,11 +252,13 @@ func init() {
 	// atomic.Value{v any}
 	reg("(*sync/atomic.Value).Load", func(fr *frame, fn *ssa.Function, a []Value) Value {
 		s := structCell(a[0], "atomic.Value.Load")
+		atomicSync(fr, &s[0])
 		fr.p.preemptPoint(fr.th)
 		return s[0]
 	})
 	reg("(*sync/atomic.Value).Store", func(fr *frame, fn *ssa.Function, a []Value) Value {
 		s := structCell(a[0], "atomic.Value.Store")
+		atomicSync(fr, &s[0])
 		fr.p.preemptPoint(fr.th)
 		s[0] = a[1]
 		return nil
